@@ -147,7 +147,7 @@ if __name__ == "__main__" and sys.argv[1] == "sweep":
     sweep(args, jobs)
 
 
-def sweep_harmless(jobs=3):
+def sweep_harmless(jobs=3, only=None):
     """The behaviour-preserving rewrites (seeded/harmless/H*-*), each against the quick checks of the properties whose code it touches
     (the list recorded in seeded/harmless_results.txt), in sandboxes.  Every run must exit 0."""
     import concurrent.futures, glob, re
@@ -162,6 +162,14 @@ def sweep_harmless(jobs=3):
         m = re.match(r"stage-(H\d-\d) (C\d\d) ", l)
         if m and m.group(2) not in props_of.setdefault(m.group(1), []):
             props_of[m.group(1)].append(m.group(2))
+    import glob as _g
+    allp = ["C%02d" % i for i in range(1, 21)]
+    for d in sorted(_g.glob(os.path.join(VERIF, "seeded", "harmless", "H*-*"))):
+        h = os.path.basename(d)
+        if h not in props_of:
+            props_of[h] = allp     # rewrites of the second batch: every property's check is run against each
+    if only:
+        props_of = {h: ps for h, ps in props_of.items() if h in only}
     jobsl = [(h, p) for h in sorted(props_of) for p in props_of[h]]
 
     def one(hp):
@@ -207,4 +215,4 @@ def sweep_harmless(jobs=3):
 
 
 if __name__ == "__main__" and sys.argv[1] == "harmless":
-    sweep_harmless(int(sys.argv[2]) if len(sys.argv) > 2 else 3)
+    sweep_harmless(int(sys.argv[2]) if len(sys.argv) > 2 else 3, sys.argv[3:] or None)
